@@ -396,7 +396,7 @@ func (h *Session) Notify(frame Frame) {
 		if !frame.SrcAddr.IP.IsValid() {
 			return
 		}
-		frame.Host = h.findIP(frame.SrcAddr.IP)
+		frame.Host = h.FindIP(frame.SrcAddr.IP) // takes the session read lock (findIP reads the map unlocked)
 		if frame.Host == nil {
 			return
 		}
